@@ -191,7 +191,15 @@ def run_alias(i, tier, res):
     name, ns = load(src)
     res.programs += 1
     case = {"kind": "alias", "idx": i, "program": name_, "source": src, "root": root}
-    name_tag = name_ + (":pep695" if src.startswith("type ") else "") + (":value-as-root" if root.endswith("__value__") else "")
+    name_tag = name_ + (":pep695" if "\ntype " in "\n" + src else "") + (":value-as-root" if root.endswith("__value__") else "") + (":in-" + root.split("[")[0] if "[" in root else "") + (":class-field" if root == "H" else "")
+    if root.startswith("dict[str,"):
+        wrap_w = wrap_e = lambda x: {"kk": x}  # noqa: E731
+    elif root.startswith("list["):
+        wrap_w = wrap_e = lambda x: [x]  # noqa: E731
+    elif root == "H":
+        wrap_w, wrap_e = (lambda x: {"body": x, "n": "3"}), None
+    else:
+        wrap_w = wrap_e = lambda x: x  # noqa: E731
     try:
         ann = eval(root, ns)  # noqa: S307 - "A" or "A.__value__"
         bm = timed(BUILD_LIMIT, typelib.marshaller, ann)
@@ -201,8 +209,11 @@ def run_alias(i, tier, res):
             if not b.ok:
                 res.violation(f"C07/alias/{name_tag}/build/{nm}/{'no-termination' if b.timeout else b.excname}", f"{nm}({root}) of {src!r}: {b!r}", case)
                 return
+        if wrap_e is None:
+            wrap_e = lambda x: ns["H"](body=x, n=3)  # noqa: E731
         for d in depths:
             w, e = cycles.alias_value(name_, d)
+            w, e = wrap_w(w), wrap_e(e)
             u = call(bu.val, w)
             res.evals += 1
             res.outcomes.add(h64("alias", name_, d, "ok" if u.ok else u.excname))
@@ -215,7 +226,8 @@ def run_alias(i, tier, res):
                 res.violation(f"C07/alias/{name_tag}/unmarshal/level-not-converted/{dclass}", f"unmarshal({root}, {short(w, 80)}) = {short(u.val, 120)}, expected {short(e, 120)}", dict(case, d=d))
             m = call(bm.val, e)
             res.evals += 1
-            if not m.ok or not same(m.val, e):
+            em = {"body": cycles.alias_value(name_, d)[1], "n": 3} if root == "H" else e
+            if not m.ok or not same(m.val, em):
                 res.violation(f"C07/alias/{name_tag}/marshal/{'raises:' + m.excname if not m.ok else 'value'}/{dclass}", f"marshal(depth {d}) = {m!r}", dict(case, d=d))
     finally:
         prelude.dropmod(name)
